@@ -476,8 +476,15 @@ class PointCloud(Geometry3D):
         # copy vertex and face data
         copied._data.data = copy.deepcopy(self._data.data)
 
-        # copy visual data
-        copied.visual = copy.deepcopy(self.visual)
+        # copy visual data: a `VertexColor` holds a reference back to
+        # its point cloud, so deep-copying it would copy all of us again
+        if isinstance(self.visual, VertexColor):
+            colors = self.visual.vertex_colors
+            copied.visual = VertexColor(
+                colors=None if len(colors) == 0 else np.array(colors), obj=copied
+            )
+        else:
+            copied.visual = self.visual.copy()
 
         # get metadata
         copied.metadata = copy.deepcopy(self.metadata)
